@@ -17,7 +17,7 @@ from vlib import progs, decoders
 
 TYPES = ["hex", "srec", "elf", "bin", "wdc", "uf2", "amiga", "macho"]
 NUM_RE = re.compile(r"(?<![\w.$])(0x[0-9a-fA-F]+|\d+)\b")
-DIMS = ["clock", "heap", "stack", "chunk", "flags", "name", "type", "history-main", "history-api", "repeat", "heap+stack+clock", "build", "flags+name", "default-cpu"]
+DIMS = ["clock", "heap", "stack", "chunk", "flags", "name", "type", "history-main", "history-api", "repeat", "heap+stack+clock", "build", "flags+name", "default-cpu", "inline-set"]
 
 
 def strip_s0(b):
@@ -101,7 +101,19 @@ class C13(Engine):
                 prog["stmts"].append([".db %d" % rng.below(256)])
             prog["stmts"].append(["fw_%s:" % w])
             prog["stmts"].append([".db 9"])
-        if rng.chance(1, 8) and not prog.get("fw_kind"):
+        if rng.chance(1, 4):
+            # one symbol given three values in turn with .set, and used after each: every use sees the value in force there -
+            # in pass 2 as in pass 1.  The twin program has the values written out.
+            w = "%x" % rng.below(1 << 20)
+            twin = copy.deepcopy(prog)
+            at = 1
+            for v in [rng.below(256) for _ in range(3)]:
+                at = rng.range(at, len(prog["stmts"]))
+                for pr, use in ((prog, ".db RS_%s" % w), (twin, ".db %d" % v)):
+                    pr["stmts"][at:at] = [[".set RS_%s=%d" % (w, v)], [use]]
+                at += 2
+            prog["twin"] = twin["stmts"]
+        if rng.chance(1, 8) and not prog.get("fw_kind") and not prog.get("twin"):
             # data placed before the CPU is selected (the default CPU's address units apply there, in both passes)
             prog["stmts"][0:0] = [[".org 0x%x" % rng.pick([0x10, 0x100, 0x1000])], [".db %d, %d" % (rng.below(256), rng.below(256))]]
             prog["cpu_late"] = True
@@ -327,6 +339,13 @@ class C13(Engine):
                                  history=[(h["cpu"], h["code"][:300]) for h in p["history"]])
                 res.probe("dim:history-api")
                 continue
+            if dim == "inline-set":
+                if not prog.get("twin") or prog.get("fw_kind"):
+                    res.probe("inline_set_not_applicable")
+                    continue
+                extra = dict(extra)
+                extra["/sim/w/a.asm"] = ("\n".join("\n".join(st) for st in prog["twin"]) + "\n").encode("latin-1")
+                res.probe("inline_set_compared")
             if dim == "default-cpu":
                 # the default CPU is the MSP430: the program without its .msp430 directive is the same program
                 if prog["cpu"] != "msp430" or prog["stmts"][0] != [".msp430"] or prog["files"]:
